@@ -44,6 +44,7 @@ fn main() {
     "C18" => c18::run(&mut sink, &mut rng, thorough),
     "C20" => c20::run(&mut sink, &mut rng, thorough),
     "C14" => mocset::histories(&mut sink, &mut rng, thorough, &dir.join("work")),
+    "C16" => mocset::crash_points(&mut sink, &mut rng, thorough, &dir.join("work")),
     "C15" => mocset::queries(&mut sink, &mut rng, thorough, &dir.join("work")),
     _ => {
       eprintln!("unknown property {}", prop);
